@@ -134,7 +134,11 @@ def apiDegradeCore (m : MapObj) (ordOut : Nat) (red : String) (w : Option MapObj
       pure { m with spord := ordOut, cache := none, st := degradeMap m.c m.vc m.st g f m.sent }
     else
       if !floatReds.contains red then throw .value
-      let dtOut := auxDT dt
+      -- numpy promotion of `x * weights`: a float64 weight map makes the result float64
+      let wIs64 := red == "wmean" && (match w with
+        | some wm => (match wm.kind with | .plain (.flt 64) => true | _ => false)
+        | none => false)
+      let dtOut := if wIs64 then .flt 64 else auxDT dt
       let sentOut := dtOut.defaultSentinel
       let f : List (Val × Val) → Val := fun cw =>
         let validCW := cw.filter fun p => m.vc.valid p.1
